@@ -47,12 +47,36 @@ histories executed on ONE `Modules` value, that this extra state is transparent:
                              |                                                     | and on a shadow value that never
                              |                                                     | saw the refused texts, before the
                              |                                                     | next Process; `read` vs the model
+                             | ANYTHING kept between texts that a failing text can | every refused offer is also put to
+                             | leave dirty (a parser with its brace depth: seeded   | a FRESH value that took the accepted
+                             | change C18-m22)                                      | operations: same answer (accepted /
+                             |                                                     | refused, same (position, class))
+                             | ms.Path and pathMap, the duplicate table of AddPath | FILE histories (`files/`): Read by
+                             | (Modules.Read puts the directory of a file on the   | path / name, AddPath, files that
+                             | path before Parse sees the text: a roll back of one | appear, imports found through the
+                             | of the two only is seeded change C18-m21; the        | path only, vs the same history
+                             | unchanged tree rolls back neither: known finding    | without the refused loads: path,
+                             | D18-P1, tagged narrowly); outside the machine, Go   | later offers, errors, trees, lookups
+                             | vs Go only                                          | after every operation
+  incremental_eq_batch       | the type generation across a run that could NOT     | FILE histories: a run with a missing
+                             | link (memoised "unknown prefix" must not survive:   | import, then the path grows / the
+                             | seeded change C09-m22)                              | file appears, a run = a fresh set's
   read_no_trace              | entryCache entries and memoised types / errors made | ToEntry / Find / GetErrors walks
                              | by ToEntry before a Process (D45), rpc input/output | between operations; later dumps
                              | created lazily by Find                              | must equal batch and model
 
 (D30-D32, D44-D46, D55: the ways in which the unchanged tree was NOT transparent; all repaired in
 /repo, the witnesses are corpus/C18/*.json.  DESIGN.md section 8, known_findings.txt.)
+
+PROVED SINCE (proof round 5, Props/C18Cached.lean): the layer between this machine and the Go value.
+`Goyang.Model.SessionCached` is a stateful machine in which entry cache, links, identity tables,
+generation counter + stamped per-type memo and the snapshot / restore around a refused load persist
+between operations; `cached_refines_session` shows that under the reset discipline (a decidable
+predicate over the regenerated inventory Gen/State.lean, evaluated on the current one) it answers
+every history as the machine below does, and `cached_process_outcome` carries `process_outcome` over
+to it.  What the table above calls "assumed transparent" is thereby reduced to: the Go functions
+compute what the pure functions of that machine compute and store nothing else (runner), and the
+inventory is a faithful reading of the source (translator).
 -/
 namespace Goyang.Props.C18
 open Goyang.Model Goyang.Model.Session Goyang.Spec.Session Goyang.Lemmas.Session
